@@ -76,13 +76,13 @@ Proof.
       exists w'. split; [exact Hw |]. rewrite Hn. cbn. now destruct (existsb is_neg r).
 Qed.
 
-Lemma u_tm_lex tm t' :
-  lexvar (w_tm tm) t' ->
-  exists w, u_text_match zero_wtm t' = Ok w /\ wtm_text w = tm_text tm /\ wtm_negate w = tm_negate tm.
+Lemma u_tm_lex d tm t' :
+  (d < MAXD)%N -> lexvar (w_tm tm) t' ->
+  exists w, u_text_match d zero_wtm t' = Ok w /\ wtm_text w = tm_text tm /\ wtm_negate w = tm_negate tm.
 Proof.
-  intros Hl. apply lexvar_elem_inv in Hl. destruct Hl as (a' & k' & -> & Ha & Hk).
+  intros Hdl Hl. apply lexvar_elem_inv in Hl. destruct Hl as (a' & k' & -> & Ha & Hk).
   change (negb (pcdata (cn "text-match"))) with false in Hk.
-  unfold u_text_match. rewrite name_eqb_refl. cbn [negb].
+  unfold u_text_match. rewrite (chk_lt _ _ Hdl). rewrite name_eqb_refl. cbn [negb].
   assert (Hx : forall x, In x a' -> is_neg x = true -> a_value x = if tm_negate tm then "yes" else "no").
   { intros [[sp lo] v] Hin Hn. unfold is_neg, a_space, a_local in Hn. cbn in Hn.
     apply andb_true_iff in Hn. destruct Hn as [Hs Hlo]. apply str_empty_spec in Hs.
@@ -121,12 +121,12 @@ Qed.
 Definition wtr_of (s e : instant) : w_time_range :=
   {| wtr_start := if i_zero s then None else Some s; wtr_end := if i_zero e then None else Some e |}.
 
-Lemma u_tr_lex s e t' :
-  utc_ok s = true -> utc_ok e = true -> lexvar (w_tr s e) t' ->
-  u_time_range zero_wtr t' = Ok (wtr_of s e).
+Lemma u_tr_lex d s e t' :
+  (d < MAXD)%N -> utc_ok s = true -> utc_ok e = true -> lexvar (w_tr s e) t' ->
+  u_time_range d zero_wtr t' = Ok (wtr_of s e).
 Proof.
-  intros Hs He Hl. apply lexvar_elem_inv in Hl. destruct Hl as (a' & k' & -> & Ha & Hk).
-  unfold u_time_range. rewrite name_eqb_refl. cbn [negb].
+  intros Hdl Hs He Hl. apply lexvar_elem_inv in Hl. destruct Hl as (a' & k' & -> & Ha & Hk).
+  unfold u_time_range. rewrite (chk_lt _ _ Hdl). rewrite name_eqb_refl. cbn [negb].
   destruct (attrs_active tr_set act_se _ _ a' zero_wtr tr_set_inert Ha eq_refl) as (p & Hp & ->).
   { cbn. tauto. }
   { destruct (i_zero s), (i_zero e); repeat constructor. }
@@ -141,12 +141,12 @@ Proof.
       rewrite ?(u_instant_fmt _ Hs), ?(u_instant_fmt _ He); reflexivity.
 Qed.
 
-Lemma u_expand_lex s e t' :
-  utc_ok s = true -> utc_ok e = true -> lexvar (w_expand_el (s, e)) t' ->
-  u_expand zero_wex t' = Ok {| wex_start := s; wex_end := e |}.
+Lemma u_expand_lex d s e t' :
+  (d < MAXD)%N -> utc_ok s = true -> utc_ok e = true -> lexvar (w_expand_el (s, e)) t' ->
+  u_expand d zero_wex t' = Ok {| wex_start := s; wex_end := e |}.
 Proof.
-  intros Hs He Hl. apply lexvar_elem_inv in Hl. destruct Hl as (a' & k' & -> & Ha & Hk).
-  unfold u_expand. rewrite name_eqb_refl. cbn [negb].
+  intros Hdl Hs He Hl. apply lexvar_elem_inv in Hl. destruct Hl as (a' & k' & -> & Ha & Hk).
+  unfold u_expand. rewrite (chk_lt _ _ Hdl). rewrite name_eqb_refl. cbn [negb].
   destruct (attrs_active ex_set act_se _ _ a' zero_wex ex_set_inert Ha eq_refl) as (p & Hp & ->).
   { cbn. tauto. }
   { repeat constructor. }
@@ -172,29 +172,31 @@ Lemma ind_elem_inv t' : lexvar ind_elem t' -> exists a' k', t' = Elem (cn "is-no
 Proof. intros H. apply lexvar_elem_inv in H. destruct H as (a' & k' & -> & _). eauto. Qed.
 
 (** * param-filter *)
-Lemma paf_kid_skip w t : is_elem t = false -> paf_kid w t = Ok w.
+Lemma paf_kid_skip d w t : is_elem t = false -> paf_kid d w t = Ok w.
 Proof. destruct t; cbn; [discriminate | reflexivity | reflexivity]. Qed.
 
-Lemma u_paf_lex p t' :
-  valid_paf p = true -> lexvar (w_paf p) t' ->
-  exists w, u_param_filter zero_wpaf t' = Ok w /\ decode_param_filter w = Ok p.
+Lemma u_paf_lex d p t' :
+  (d + need_paf p < MAXD)%N -> valid_paf p = true -> lexvar (w_paf p) t' ->
+  exists w, u_param_filter d zero_wpaf t' = Ok w /\ decode_param_filter w = Ok p.
 Proof.
-  intros Hv Hl. apply lexvar_elem_inv in Hl. destruct Hl as (a' & k' & -> & Ha & Hk).
+  intros Hdl Hv Hl. apply lexvar_elem_inv in Hl. destruct Hl as (a' & k' & -> & Ha & Hk).
   change (negb (pcdata (cn "param-filter"))) with true in Hk.
-  unfold u_param_filter. rewrite name_eqb_refl. cbn [negb].
+  unfold u_param_filter. rewrite chk_lt by lia. rewrite name_eqb_refl. cbn [negb].
   rewrite (fold_attrs_name paf_set _ _ _ _ paf_set_inert Ha) by (cbn; tauto).
   unfold paf_set at 1. cbn [String.eqb Ascii.eqb Bool.eqb]. change (String.eqb "name" "name") with true. cbv iota.
   rewrite fold_res_elems by apply paf_kid_skip.
-  destruct p as [nm ind tm]. unfold valid_paf in Hv. cbn [paf_name paf_ind paf_tm] in *.
+  destruct p as [nm ind tm]. unfold valid_paf in Hv. unfold need_paf in Hdl. cbn [paf_name paf_ind paf_tm] in *.
   destruct ind.
-  - destruct tm; [discriminate |].
+  - destruct tm; [discriminate |]. cbn [orb] in Hdl.
     destruct (kids_var_econtent _ _ Hk eq_refl) as [_ Hf]. inv_f2.
     match goal with H : lexvar ind_elem _ |- _ => apply ind_elem_inv in H; destruct H as (a1 & k1 & ->) end.
-    cbn. eexists. split; reflexivity.
+    cbn [fold_res paf_kid]. change (local_is (cn "is-not-defined") "is-not-defined") with true. cbv iota.
+    unfold flag_at. rewrite chk_lt by lia. eexists. split; reflexivity.
   - destruct tm as [tm|].
     + destruct (kids_var_econtent _ _ Hk eq_refl) as [_ Hf]. cbn [opt_list] in Hf. inv_f2.
+      cbn [orb is_some] in Hdl.
       match goal with H : lexvar (w_tm _) _ |- _ =>
-        pose proof H as Hl; apply u_tm_lex in H; destruct H as (wt & Hu & Ht & Hn);
+        pose proof H as Hl; apply (u_tm_lex (d + 1)) in H; [|lia]; destruct H as (wt & Hu & Ht & Hn);
         apply lexvar_elem_inv in Hl; destruct Hl as (a1 & k1 & -> & _) end.
       cbn [fold_res paf_kid]. change (local_is (cn "text-match") "is-not-defined") with false.
       change (local_is (cn "text-match") "text-match") with true. cbv iota.
@@ -223,29 +225,31 @@ Proof.
   split; now apply i_zero_eq.
 Qed.
 
-Lemma pf_kid_skip w t : is_elem t = false -> pf_kid w t = Ok w.
+Lemma pf_kid_skip d w t : is_elem t = false -> pf_kid d w t = Ok w.
 Proof. destruct t; cbn; [discriminate | reflexivity | reflexivity]. Qed.
 
-Lemma fold_pafs ps :
+Lemma fold_pafs d ps :
+  (d + maxl (fun q => 2 + need_paf q)%N ps < MAXD)%N ->
   forallb valid_paf ps = true -> forall rest' w0, Forall2 lexvar (map w_paf ps) rest' ->
   exists ws,
-    fold_res pf_kid rest' w0 =
+    fold_res (pf_kid d) rest' w0 =
     Ok {| wpf_name := wpf_name w0; wpf_ind := wpf_ind w0; wpf_tr := wpf_tr w0; wpf_tm := wpf_tm w0;
           wpf_params := wpf_params w0 ++ ws |}
     /\ map_res decode_param_filter ws = Ok ps.
 Proof.
-  induction ps as [|p ps IH]; intros Hv rest' w0 Hf; cbn [map] in Hf; inv_f2.
+  induction ps as [|p ps IH]; intros Hdl Hv rest' w0 Hf; cbn [map] in Hf; inv_f2.
   - exists []. rewrite app_nil_r. destruct w0. auto.
   - cbn [forallb] in Hv. apply andb_true_iff in Hv. destruct Hv as [Hp Hps].
+    unfold maxl in Hdl. cbn [fold_right] in Hdl. fold (maxl (fun q => 2 + need_paf q)%N ps) in Hdl.
     match goal with H : lexvar (w_paf p) _ |- _ =>
-      pose proof H as Hl; apply (u_paf_lex _ _ Hp) in H; destruct H as (w1 & Hu & Hd);
+      pose proof H as Hl; apply (u_paf_lex (d + 2) p _ ltac:(lia) Hp) in H; destruct H as (w1 & Hu & Hd);
       apply lexvar_elem_inv in Hl; destruct Hl as (a1 & k1 & -> & _) end.
     cbn [fold_res pf_kid].
     change (local_is (cn "param-filter") "is-not-defined") with false.
     change (local_is (cn "param-filter") "time-range") with false.
     change (local_is (cn "param-filter") "text-match") with false.
-    change (local_is (cn "param-filter") "param-filter") with true. cbv iota. rewrite Hu.
-    match goal with HF : Forall2 lexvar (map w_paf ps) _ |- context [fold_res pf_kid _ ?w1] => destruct (IH Hps _ w1 HF) as (ws & -> & Hm) end.
+    change (local_is (cn "param-filter") "param-filter") with true. cbv iota. rewrite chk_lt by lia. rewrite Hu.
+    match goal with HF : Forall2 lexvar (map w_paf ps) _ |- context [fold_res (pf_kid d) _ ?w1] => destruct (IH ltac:(lia) Hps _ w1 HF) as (ws & -> & Hm) end.
     exists (w1 :: ws). cbn [wpf_name wpf_ind wpf_tr wpf_tm wpf_params]. rewrite <- app_assoc. split; [reflexivity |].
     cbn [map_res]. rewrite Hd. cbn in Hm |- *. now rewrite Hm.
 Qed.
@@ -258,40 +262,42 @@ Proof.
     intros E'. inversion E'; subst. cbn. f_equal. now apply IH.
 Qed.
 
-Lemma u_pf_lex p t' :
-  valid_pf p = true -> lexvar (w_pf p) t' ->
-  exists w, u_prop_filter zero_wpf t' = Ok w /\ decode_prop_filter w = Ok p.
+Lemma u_pf_lex d p t' :
+  (d + need_pf p < MAXD)%N -> valid_pf p = true -> lexvar (w_pf p) t' ->
+  exists w, u_prop_filter d zero_wpf t' = Ok w /\ decode_prop_filter w = Ok p.
 Proof.
-  intros Hv Hl. apply lexvar_elem_inv in Hl. destruct Hl as (a' & k' & -> & Ha & Hk).
+  intros Hdl Hv Hl. apply lexvar_elem_inv in Hl. destruct Hl as (a' & k' & -> & Ha & Hk).
   change (negb (pcdata (cn "prop-filter"))) with true in Hk.
-  unfold u_prop_filter. rewrite name_eqb_refl. cbn [negb].
+  unfold u_prop_filter. rewrite chk_lt by lia. rewrite name_eqb_refl. cbn [negb].
   rewrite (fold_attrs_name pf_set _ _ _ _ pf_set_inert Ha) by (cbn; tauto).
   unfold pf_set at 1. change (String.eqb "name" "name") with true. cbv iota.
   rewrite fold_res_elems by apply pf_kid_skip.
-  destruct p as [nm ind s e tm ps]. unfold valid_pf in Hv. cbn [pf_name pf_ind pf_start pf_end pf_tm pf_params] in *.
+  destruct p as [nm ind s e tm ps]. unfold valid_pf in Hv. unfold need_pf in Hdl.
+  cbn [pf_name pf_ind pf_start pf_end pf_tm pf_params] in *.
   apply andb_true_iff in Hv. destruct Hv as [Hv Hps].
   apply andb_true_iff in Hv. destruct Hv as [Hv Hc].
   apply andb_true_iff in Hv. destruct Hv as [Hs He].
   destruct ind.
   - apply andb_true_iff in Hc. destruct Hc as [Hc Hn]. apply andb_true_iff in Hc. destruct Hc as [Htr Htm].
     apply negb_true_iff in Htr. destruct tm; [discriminate |]. destruct ps; [|discriminate].
-    destruct (no_tr_zero _ _ Hs He Htr) as [-> ->].
+    destruct (no_tr_zero _ _ Hs He Htr) as [-> ->]. cbn [orb] in Hdl.
     destruct (kids_var_econtent _ _ Hk eq_refl) as [_ Hf]. inv_f2.
     match goal with H : lexvar ind_elem _ |- _ => apply ind_elem_inv in H; destruct H as (a1 & k1 & ->) end.
-    cbn. eexists. split; reflexivity.
-  - destruct (has_tr s e) eqn:Htr.
-    + destruct tm; [discriminate |].
+    cbn [fold_res pf_kid]. change (local_is (cn "is-not-defined") "is-not-defined") with true. cbv iota.
+    unfold flag_at. rewrite chk_lt by lia. eexists. split; reflexivity.
+  - cbn [orb] in Hdl. destruct (has_tr s e) eqn:Htr.
+    + destruct tm; [discriminate |]. cbn [orb] in Hdl.
       assert (Hk0 : forallb is_elem ([w_tr s e] ++ map w_paf ps) = true).
       { cbn. apply forallb_forall. intros x Hin. apply in_map_iff in Hin. destruct Hin as (y & <- & _). reflexivity. }
       destruct (kids_var_econtent _ _ Hk Hk0) as [_ Hf]. cbn [app] in Hf. inv_f2.
       match goal with H : lexvar (w_tr _ _) _ |- _ =>
-        pose proof H as Hl; apply (u_tr_lex _ _ _ Hs He) in H; rename H into Hu;
+        pose proof H as Hl; apply (u_tr_lex (d + 1) _ _ _ ltac:(cbn [orb is_some] in Hdl; lia) Hs He) in H; rename H into Hu;
         apply lexvar_elem_inv in Hl; destruct Hl as (a1 & k1 & -> & _) end.
       cbn [fold_res pf_kid].
       change (local_is (cn "time-range") "is-not-defined") with false.
       change (local_is (cn "time-range") "time-range") with true. cbv iota.
       cbn [wpf_tr zero_wpf opt_default]. rewrite Hu.
-      match goal with HF : Forall2 lexvar (map w_paf ps) _ |- context [fold_res pf_kid _ ?w1] => destruct (fold_pafs _ Hps _ w1 HF) as (ws & -> & Hm) end.
+      match goal with HF : Forall2 lexvar (map w_paf ps) _ |- context [fold_res (pf_kid d) _ ?w1] => destruct (fold_pafs d ps ltac:(cbn [orb is_some] in Hdl; lia) Hps _ w1 HF) as (ws & -> & Hm) end.
       eexists. split; [reflexivity |]. unfold decode_prop_filter.
       cbn [wpf_name wpf_ind wpf_tr wpf_tm wpf_params zero_wpf app andb].
       rewrite Hm. rewrite tr_start_of, tr_end_of by assumption. reflexivity.
@@ -301,45 +307,47 @@ Proof.
         apply forallb_forall. intros x Hin. apply in_map_iff in Hin. destruct Hin as (y & <- & _). reflexivity. }
       destruct (kids_var_econtent _ _ Hk Hk0) as [_ Hf].
       destruct tm as [tm|]; cbn [opt_list app] in Hf.
-      * inv_f2.
+      * inv_f2. cbn [orb is_some] in Hdl.
         match goal with H : lexvar (w_tm _) _ |- _ =>
-          pose proof H as Hl; apply u_tm_lex in H; destruct H as (wt & Hu & Ht & Hn);
+          pose proof H as Hl; apply (u_tm_lex (d + 1)) in H; [|lia]; destruct H as (wt & Hu & Ht & Hn);
           apply lexvar_elem_inv in Hl; destruct Hl as (a1 & k1 & -> & _) end.
         cbn [fold_res pf_kid].
         change (local_is (cn "text-match") "is-not-defined") with false.
         change (local_is (cn "text-match") "time-range") with false.
         change (local_is (cn "text-match") "text-match") with true. cbv iota.
         cbn [wpf_tm zero_wpf opt_default]. rewrite Hu.
-        match goal with HF : Forall2 lexvar (map w_paf ps) _ |- context [fold_res pf_kid _ ?w1] => destruct (fold_pafs _ Hps _ w1 HF) as (ws & -> & Hm) end.
+        match goal with HF : Forall2 lexvar (map w_paf ps) _ |- context [fold_res (pf_kid d) _ ?w1] => destruct (fold_pafs d ps ltac:(cbn [orb is_some] in Hdl; lia) Hps _ w1 HF) as (ws & -> & Hm) end.
         eexists. split; [reflexivity |]. unfold decode_prop_filter.
         cbn [wpf_name wpf_ind wpf_tr wpf_tm wpf_params zero_wpf app andb].
         rewrite Hm. cbn. destruct tm. cbn in *. now subst.
-      * match goal with |- context [fold_res pf_kid _ ?w1] => destruct (fold_pafs _ Hps _ w1 Hf) as (ws & -> & Hm) end.
+      * match goal with |- context [fold_res (pf_kid d) _ ?w1] => destruct (fold_pafs d ps ltac:(cbn [orb is_some] in Hdl; lia) Hps _ w1 Hf) as (ws & -> & Hm) end.
         eexists. split; [reflexivity |]. unfold decode_prop_filter.
         cbn [wpf_name wpf_ind wpf_tr wpf_tm wpf_params zero_wpf app andb].
         rewrite Hm. reflexivity.
 Qed.
 
 (** * comp-filter *)
-Definition cf_kid (w : w_comp_filter) (kid : xtree) : res w_comp_filter :=
+Definition cf_kid (d : N) (w : w_comp_filter) (kid : xtree) : res w_comp_filter :=
   match w with WCF name ind tr pfs cfs =>
   match kid with
   | Elem n' _ _ =>
-    if local_is n' "is-not-defined" then Ok (WCF name true tr pfs cfs)
+    if local_is n' "is-not-defined" then flag_at d (WCF name true tr pfs cfs)
     else if local_is n' "time-range" then
-      match u_time_range (opt_default zero_wtr tr) kid with
+      match u_time_range (d + 1) (opt_default zero_wtr tr) kid with
       | Ok tr' => Ok (WCF name ind (Some tr') pfs cfs)
       | Err c => Err c
       | Panic => Panic
       end
     else if local_is n' "prop-filter" then
-      match u_prop_filter zero_wpf kid with
+      chk (d + 1)
+      match u_prop_filter (d + 2) zero_wpf kid with
       | Ok p => Ok (WCF name ind tr (pfs ++ [p]) cfs)
       | Err c => Err c
       | Panic => Panic
       end
     else if local_is n' "comp-filter" then
-      match u_comp_filter zero_wcf kid with
+      chk (d + 1)
+      match u_comp_filter (d + 2) zero_wcf kid with
       | Ok c' => Ok (WCF name ind tr pfs (cfs ++ [c']))
       | Err c => Err c
       | Panic => Panic
@@ -348,65 +356,71 @@ Definition cf_kid (w : w_comp_filter) (kid : xtree) : res w_comp_filter :=
   | _ => Ok w
   end end.
 
-Lemma u_comp_filter_eq init n a k :
-  u_comp_filter init (Elem n a k) =
+Lemma u_comp_filter_eq d init n a k :
+  u_comp_filter d init (Elem n a k) =
+  chk d (
   if negb (name_eqb n (cn "comp-filter")) then Err 400 else
   match fold_attrs wcf_set a init with
-  | Ok w0 => fold_res cf_kid k w0
+  | Ok w0 => fold_res (cf_kid d) k w0
   | Err c => Err c
   | Panic => Panic
-  end.
+  end).
 Proof. reflexivity. Qed.
 
-Lemma cf_kid_skip w t : is_elem t = false -> cf_kid w t = Ok w.
+Lemma cf_kid_skip d w t : is_elem t = false -> cf_kid d w t = Ok w.
 Proof. destruct w, t; cbn; [discriminate | reflexivity | reflexivity]. Qed.
 
-Lemma fold_pfs ps :
+Lemma fold_pfs d ps :
+  (d + maxl (fun p => 2 + need_pf p)%N ps < MAXD)%N ->
   forallb valid_pf ps = true -> forall rest' nm ind tr pfs cfs, Forall2 lexvar (map w_pf ps) rest' ->
   exists ws,
-    fold_res cf_kid rest' (WCF nm ind tr pfs cfs) = Ok (WCF nm ind tr (pfs ++ ws) cfs)
+    fold_res (cf_kid d) rest' (WCF nm ind tr pfs cfs) = Ok (WCF nm ind tr (pfs ++ ws) cfs)
     /\ map_res decode_prop_filter ws = Ok ps.
 Proof.
-  induction ps as [|p ps IH]; intros Hv rest' nm ind tr pfs cfs Hf; cbn [map] in Hf; inv_f2.
+  induction ps as [|p ps IH]; intros Hdl Hv rest' nm ind tr pfs cfs Hf; cbn [map] in Hf; inv_f2.
   - exists []. rewrite app_nil_r. auto.
   - cbn [forallb] in Hv. apply andb_true_iff in Hv. destruct Hv as [Hp Hps].
+    unfold maxl in Hdl. cbn [fold_right] in Hdl. fold (maxl (fun p => 2 + need_pf p)%N ps) in Hdl.
     match goal with H : lexvar (w_pf p) _ |- _ =>
-      pose proof H as Hl; apply (u_pf_lex _ _ Hp) in H; destruct H as (w1 & Hu & Hd);
+      pose proof H as Hl; apply (u_pf_lex (d + 2) p _ ltac:(lia) Hp) in H; destruct H as (w1 & Hu & Hd);
       apply lexvar_elem_inv in Hl; destruct Hl as (a1 & k1 & -> & _) end.
     cbn [fold_res cf_kid].
     change (local_is (cn "prop-filter") "is-not-defined") with false.
     change (local_is (cn "prop-filter") "time-range") with false.
-    change (local_is (cn "prop-filter") "prop-filter") with true. cbv iota. rewrite Hu.
+    change (local_is (cn "prop-filter") "prop-filter") with true. cbv iota. rewrite chk_lt by lia. rewrite Hu.
     match goal with HF : Forall2 lexvar (map w_pf ps) _ |- _ =>
-      destruct (IH Hps _ nm ind tr (pfs ++ [w1])%list cfs HF) as (ws & -> & Hm) end.
+      destruct (IH ltac:(lia) Hps _ nm ind tr (pfs ++ [w1])%list cfs HF) as (ws & -> & Hm) end.
     exists (w1 :: ws). rewrite <- app_assoc. split; [reflexivity |].
     cbn [map_res]. rewrite Hd. cbn in Hm |- *. now rewrite Hm.
 Qed.
 
 Definition cf_ok (f : comp_filter) : Prop :=
+  forall d, (d + need_cf f < MAXD)%N ->
   valid_cf f = true -> forall t', lexvar (w_cf f) t' ->
-  exists w, u_comp_filter zero_wcf t' = Ok w /\ decode_comp_filter w = Ok f.
+  exists w, u_comp_filter d zero_wcf t' = Ok w /\ decode_comp_filter w = Ok f.
 
-Lemma fold_cfs comps :
-  Forall cf_ok comps -> forallb valid_cf comps = true ->
+Lemma fold_cfs d comps :
+  Forall cf_ok comps -> (d + maxl (fun c => 2 + need_cf c)%N comps < MAXD)%N ->
+  forallb valid_cf comps = true ->
   forall rest' nm ind tr pfs cfs, Forall2 lexvar (map w_cf comps) rest' ->
   exists ws,
-    fold_res cf_kid rest' (WCF nm ind tr pfs cfs) = Ok (WCF nm ind tr pfs (cfs ++ ws))
+    fold_res (cf_kid d) rest' (WCF nm ind tr pfs cfs) = Ok (WCF nm ind tr pfs (cfs ++ ws))
     /\ map_res decode_comp_filter ws = Ok comps.
 Proof.
-  induction 1 as [|f comps Hf0 _ IH]; intros Hv rest' nm ind tr pfs cfs Hf; cbn [map] in Hf; inv_f2.
+  induction 1 as [|f comps Hf0 _ IH]; intros Hdl Hv rest' nm ind tr pfs cfs Hf; cbn [map] in Hf; inv_f2.
   - exists []. rewrite app_nil_r. auto.
   - cbn [forallb] in Hv. apply andb_true_iff in Hv. destruct Hv as [Hp Hps].
+    unfold maxl in Hdl. cbn [fold_right] in Hdl. fold (maxl (fun c => 2 + need_cf c)%N comps) in Hdl.
     match goal with H : lexvar (w_cf f) _ |- _ =>
-      pose proof H as Hl; apply (Hf0 Hp) in H; destruct H as (w1 & Hu & Hd);
+      pose proof H as Hl; apply (Hf0 (d + 2)%N ltac:(lia) Hp) in H; destruct H as (w1 & Hu & Hd);
       destruct f; apply lexvar_elem_inv in Hl; destruct Hl as (a1 & k1 & -> & _) end.
     cbn [fold_res cf_kid].
     change (local_is (cn "comp-filter") "is-not-defined") with false.
     change (local_is (cn "comp-filter") "time-range") with false.
     change (local_is (cn "comp-filter") "prop-filter") with false.
-    change (local_is (cn "comp-filter") "comp-filter") with true. cbv iota. rewrite Hu.
+    change (local_is (cn "comp-filter") "comp-filter") with true. cbv iota. rewrite chk_lt by lia. rewrite Hu.
     match goal with HF : Forall2 lexvar (map w_cf comps) _ |- _ =>
-      destruct (IH Hps _ nm ind tr pfs (cfs ++ [w1])%list HF) as (ws & -> & Hm) end.
+      destruct (IH ltac:(lia) Hps _ nm ind tr pfs (cfs ++ [w1])%list HF) as (ws & -> & Hm) end.
     exists (w1 :: ws). rewrite <- app_assoc. split; [reflexivity |].
     cbn [map_res]. rewrite Hd. cbn in Hm |- *. now rewrite Hm.
 Qed.
@@ -420,9 +434,10 @@ Proof. now destruct f. Qed.
 Lemma u_cf_lex f : cf_ok f.
 Proof.
   induction f as [nm ind s e props comps IH] using comp_filter_ind2.
-  intros Hv t' Hl. cbn [w_cf] in Hl. apply lexvar_elem_inv in Hl. destruct Hl as (a' & k' & -> & Ha & Hk).
+  intros d Hdl Hv t' Hl. cbn [w_cf] in Hl. apply lexvar_elem_inv in Hl. destruct Hl as (a' & k' & -> & Ha & Hk).
   change (negb (pcdata (cn "comp-filter"))) with true in Hk.
-  rewrite u_comp_filter_eq. rewrite name_eqb_refl. cbn [negb].
+  rewrite u_comp_filter_eq. rewrite chk_lt by lia. rewrite name_eqb_refl. cbn [negb].
+  cbn [need_cf] in Hdl.
   rewrite (fold_attrs_name wcf_set _ _ _ _ wcf_set_inert Ha) by (cbn; tauto).
   unfold wcf_set, zero_wcf. change (String.eqb "name" "name") with true. cbv iota.
   rewrite fold_res_elems by apply cf_kid_skip.
@@ -434,31 +449,33 @@ Proof.
   destruct ind.
   - apply andb_true_iff in Hc. destruct Hc as [Hc Hn]. apply andb_true_iff in Hc. destruct Hc as [Htr Hn1].
     apply negb_true_iff in Htr. destruct props; [|discriminate]. destruct comps; [|discriminate].
-    destruct (no_tr_zero _ _ Hs He Htr) as [-> ->].
+    destruct (no_tr_zero _ _ Hs He Htr) as [-> ->]. cbn [orb] in Hdl.
     destruct (kids_var_econtent _ _ Hk eq_refl) as [_ Hf]. inv_f2.
     match goal with H : lexvar ind_elem _ |- _ => apply ind_elem_inv in H; destruct H as (a1 & k1 & ->) end.
-    cbn. eexists. split; reflexivity.
-  - assert (Hk0 : forallb is_elem ((if has_tr s e then [w_tr s e] else []) ++ map w_pf props ++ map w_cf comps) = true).
+    cbn [fold_res cf_kid]. change (local_is (cn "is-not-defined") "is-not-defined") with true. cbv iota.
+    unfold flag_at. rewrite chk_lt by lia. eexists. split; reflexivity.
+  - cbn [orb] in Hdl.
+    assert (Hk0 : forallb is_elem ((if has_tr s e then [w_tr s e] else []) ++ map w_pf props ++ map w_cf comps) = true).
     { rewrite !forallb_app. rewrite (forallb_map_elem w_pf) by (now intros []).
       rewrite (forallb_map_elem w_cf) by apply w_cf_is_elem. now destruct (has_tr s e). }
     destruct (kids_var_econtent _ _ Hk Hk0) as [_ Hf].
     apply Forall2_app_inv_l in Hf. destruct Hf as (l1 & l23 & Hf1 & Hf23 & ->).
     apply Forall2_app_inv_l in Hf23. destruct Hf23 as (l2 & l3 & Hf2 & Hf3 & ->).
     rewrite !fold_res_app.
-    assert (H1 : fold_res cf_kid l1 (WCF nm false None [] []) =
+    assert (H1 : fold_res (cf_kid d) l1 (WCF nm false None [] []) =
                  Ok (WCF nm false (if has_tr s e then Some (wtr_of s e) else None) [] [])).
     { destruct (has_tr s e); inv_f2; [|reflexivity].
       match goal with H : lexvar (w_tr _ _) _ |- _ =>
-        pose proof H as Hl; apply (u_tr_lex _ _ _ Hs He) in H; rename H into Hu;
+        pose proof H as Hl; apply (u_tr_lex (d + 1) _ _ _ ltac:(lia) Hs He) in H; rename H into Hu;
         apply lexvar_elem_inv in Hl; destruct Hl as (a1 & k1 & -> & _) end.
       cbn [fold_res cf_kid].
       change (local_is (cn "time-range") "is-not-defined") with false.
       change (local_is (cn "time-range") "time-range") with true. cbv iota.
       cbn [opt_default]. now rewrite Hu. }
     rewrite H1. cbv beta iota. rewrite fold_res_app.
-    destruct (fold_pfs _ Hps _ nm false (if has_tr s e then Some (wtr_of s e) else None) [] [] Hf2) as (wps & -> & Hmp).
+    destruct (fold_pfs d props ltac:(lia) Hps _ nm false (if has_tr s e then Some (wtr_of s e) else None) [] [] Hf2) as (wps & -> & Hmp).
     cbv beta iota.
-    destruct (fold_cfs _ IH Hcs _ nm false (if has_tr s e then Some (wtr_of s e) else None) ([] ++ wps)%list [] Hf3) as (wcs & -> & Hmc).
+    destruct (fold_cfs d _ IH ltac:(lia) Hcs _ nm false (if has_tr s e then Some (wtr_of s e) else None) ([] ++ wps)%list [] Hf3) as (wcs & -> & Hmc).
     eexists. split; [reflexivity |]. cbn [app decode_comp_filter andb].
     rewrite Hmp. change (map_res decode_comp_filter wcs) with (map_res decode_comp_filter wcs). rewrite Hmc.
     destruct (has_tr s e) eqn:Htr.
@@ -467,29 +484,31 @@ Proof.
 Qed.
 
 (** * calendar-data: prop, comp, expand *)
-Lemma u_cprop_lex nm t' : lexvar (w_cprop nm) t' -> u_cprop t' = Ok nm.
+Lemma u_cprop_lex d nm t' : (d < MAXD)%N -> lexvar (w_cprop nm) t' -> u_cprop d t' = Ok nm.
 Proof.
-  intros Hl. apply lexvar_elem_inv in Hl. destruct Hl as (a' & k' & -> & Ha & Hk).
-  unfold u_cprop. rewrite name_eqb_refl. cbn [negb].
+  intros Hdl Hl. apply lexvar_elem_inv in Hl. destruct Hl as (a' & k' & -> & Ha & Hk).
+  unfold u_cprop. rewrite (chk_lt _ _ Hdl). rewrite name_eqb_refl. cbn [negb].
   rewrite (fold_attrs_name cprop_set _ _ _ _ cprop_set_inert Ha).
   - reflexivity.
   - cbn. intros x [<-|[]]. reflexivity.
 Qed.
 
-Definition comp_kid (w : w_comp) (kid : xtree) : res w_comp :=
+Definition comp_kid (d : N) (w : w_comp) (kid : xtree) : res w_comp :=
   match w with WComp name ap ps ac cs =>
   match kid with
   | Elem n' _ _ =>
-    if local_is n' "allprop" then Ok (WComp name true ps ac cs)
+    if local_is n' "allprop" then flag_at d (WComp name true ps ac cs)
     else if local_is n' "prop" then
-      match u_cprop kid with
+      chk (d + 1)
+      match u_cprop (d + 2) kid with
       | Ok p => Ok (WComp name ap (ps ++ [p]) ac cs)
       | Err c => Err c
       | Panic => Panic
       end
-    else if local_is n' "allcomp" then Ok (WComp name ap ps true cs)
+    else if local_is n' "allcomp" then flag_at d (WComp name ap ps true cs)
     else if local_is n' "comp" then
-      match u_comp zero_wcomp kid with
+      chk (d + 1)
+      match u_comp (d + 2) zero_wcomp kid with
       | Ok c' => Ok (WComp name ap ps ac (cs ++ [c']))
       | Err c => Err c
       | Panic => Panic
@@ -498,60 +517,65 @@ Definition comp_kid (w : w_comp) (kid : xtree) : res w_comp :=
   | _ => Ok w
   end end.
 
-Lemma u_comp_eq init n a k :
-  u_comp init (Elem n a k) =
+Lemma u_comp_eq d init n a k :
+  u_comp d init (Elem n a k) =
+  chk d (
   if negb (name_eqb n (cn "comp")) then Err 400 else
   match fold_attrs wcomp_set a init with
-  | Ok w0 => fold_res comp_kid k w0
+  | Ok w0 => fold_res (comp_kid d) k w0
   | Err c => Err c
   | Panic => Panic
-  end.
+  end).
 Proof. reflexivity. Qed.
 
-Lemma comp_kid_skip w t : is_elem t = false -> comp_kid w t = Ok w.
+Lemma comp_kid_skip d w t : is_elem t = false -> comp_kid d w t = Ok w.
 Proof. destruct w, t; cbn; [discriminate | reflexivity | reflexivity]. Qed.
 
-Lemma fold_cprops ps :
+Lemma fold_cprops d ps :
+  (d + 2 < MAXD)%N ->
   forall rest' nm ap wps ac cs, Forall2 lexvar (map w_cprop ps) rest' ->
-  fold_res comp_kid rest' (WComp nm ap wps ac cs) = Ok (WComp nm ap (wps ++ ps) ac cs).
+  fold_res (comp_kid d) rest' (WComp nm ap wps ac cs) = Ok (WComp nm ap (wps ++ ps) ac cs).
 Proof.
-  induction ps as [|p ps IH]; intros rest' nm ap wps ac cs Hf; cbn [map] in Hf; inv_f2.
+  intros Hdl. induction ps as [|p ps IH]; intros rest' nm ap wps ac cs Hf; cbn [map] in Hf; inv_f2.
   - now rewrite app_nil_r.
   - match goal with H : lexvar (w_cprop p) _ |- _ =>
-      pose proof H as Hl; apply u_cprop_lex in H; rename H into Hu;
+      pose proof H as Hl; apply (u_cprop_lex (d + 2) _ _ Hdl) in H; rename H into Hu;
       apply lexvar_elem_inv in Hl; destruct Hl as (a1 & k1 & -> & _) end.
     cbn [fold_res comp_kid].
     change (local_is (cn "prop") "allprop") with false.
-    change (local_is (cn "prop") "prop") with true. cbv iota. rewrite Hu.
+    change (local_is (cn "prop") "prop") with true. cbv iota. rewrite chk_lt by lia. rewrite Hu.
     match goal with HF : Forall2 lexvar (map w_cprop ps) _ |- _ =>
       rewrite (IH _ nm ap (wps ++ [p])%list ac cs HF) end.
     now rewrite <- app_assoc.
 Qed.
 
 Definition comp_ok (c : comp_request) : Prop :=
+  forall d, (d + need_comp c < MAXD)%N ->
   valid_comp_sel c = true -> forall t', lexvar (w_comp_sel c) t' ->
-  exists w, u_comp zero_wcomp t' = Ok w /\ decode_comp w = Ok c.
+  exists w, u_comp d zero_wcomp t' = Ok w /\ decode_comp w = Ok c.
 
-Lemma fold_comps comps :
-  Forall comp_ok comps -> forallb valid_comp_sel comps = true ->
+Lemma fold_comps d comps :
+  Forall comp_ok comps -> (d + maxl (fun k => 2 + need_comp k)%N comps < MAXD)%N ->
+  forallb valid_comp_sel comps = true ->
   forall rest' nm ap ps ac cs, Forall2 lexvar (map w_comp_sel comps) rest' ->
   exists ws,
-    fold_res comp_kid rest' (WComp nm ap ps ac cs) = Ok (WComp nm ap ps ac (cs ++ ws))
+    fold_res (comp_kid d) rest' (WComp nm ap ps ac cs) = Ok (WComp nm ap ps ac (cs ++ ws))
     /\ map_res decode_comp ws = Ok comps.
 Proof.
-  induction 1 as [|c comps Hc0 _ IH]; intros Hv rest' nm ap ps ac cs Hf; cbn [map] in Hf; inv_f2.
+  induction 1 as [|c comps Hc0 _ IH]; intros Hdl Hv rest' nm ap ps ac cs Hf; cbn [map] in Hf; inv_f2.
   - exists []. rewrite app_nil_r. auto.
   - cbn [forallb] in Hv. apply andb_true_iff in Hv. destruct Hv as [Hp Hps].
+    unfold maxl in Hdl. cbn [fold_right] in Hdl. fold (maxl (fun k => 2 + need_comp k)%N comps) in Hdl.
     match goal with H : lexvar (w_comp_sel c) _ |- _ =>
-      pose proof H as Hl; apply (Hc0 Hp) in H; destruct H as (w1 & Hu & Hd);
+      pose proof H as Hl; apply (Hc0 (d + 2)%N ltac:(lia) Hp) in H; destruct H as (w1 & Hu & Hd);
       destruct c; apply lexvar_elem_inv in Hl; destruct Hl as (a1 & k1 & -> & _) end.
     cbn [fold_res comp_kid].
     change (local_is (cn "comp") "allprop") with false.
     change (local_is (cn "comp") "prop") with false.
     change (local_is (cn "comp") "allcomp") with false.
-    change (local_is (cn "comp") "comp") with true. cbv iota. rewrite Hu.
+    change (local_is (cn "comp") "comp") with true. cbv iota. rewrite chk_lt by lia. rewrite Hu.
     match goal with HF : Forall2 lexvar (map w_comp_sel comps) _ |- _ =>
-      destruct (IH Hps _ nm ap ps ac (cs ++ [w1])%list HF) as (ws & -> & Hm) end.
+      destruct (IH ltac:(lia) Hps _ nm ap ps ac (cs ++ [w1])%list HF) as (ws & -> & Hm) end.
     exists (w1 :: ws). rewrite <- app_assoc. split; [reflexivity |].
     cbn [map_res]. rewrite Hd. cbn in Hm |- *. now rewrite Hm.
 Qed.
@@ -565,9 +589,10 @@ Proof. intros H. apply lexvar_elem_inv in H. destruct H as (a' & k' & -> & _). e
 Lemma u_comp_lex c : comp_ok c.
 Proof.
   induction c as [nm ap ps ac comps ex IH] using comp_request_ind2.
-  intros Hv t' Hl. cbn [w_comp_sel] in Hl. apply lexvar_elem_inv in Hl. destruct Hl as (a' & k' & -> & Ha & Hk).
+  intros d Hdl Hv t' Hl. cbn [w_comp_sel] in Hl. apply lexvar_elem_inv in Hl. destruct Hl as (a' & k' & -> & Ha & Hk).
   change (negb (pcdata (cn "comp"))) with true in Hk.
-  rewrite u_comp_eq. rewrite name_eqb_refl. cbn [negb].
+  rewrite u_comp_eq. rewrite chk_lt by lia. rewrite name_eqb_refl. cbn [negb].
+  cbn [need_comp] in Hdl.
   rewrite (fold_attrs_name wcomp_set _ _ _ _ wcomp_set_inert Ha) by (cbn; tauto).
   unfold wcomp_set, zero_wcomp. change (String.eqb "name" "name") with true. cbv iota.
   rewrite fold_res_elems by apply comp_kid_skip.
@@ -584,23 +609,26 @@ Proof.
   destruct (kids_var_econtent _ _ Hk Hk0) as [_ Hf].
   apply Forall2_app_inv_l in Hf. destruct Hf as (l1 & l2 & Hf1 & Hf2 & ->).
   rewrite fold_res_app.
-  assert (H1 : fold_res comp_kid l1 (WComp nm false [] false []) = Ok (WComp nm ap ps false [])).
+  assert (H1 : fold_res (comp_kid d) l1 (WComp nm false [] false []) = Ok (WComp nm ap ps false [])).
   { destruct ap.
-    - destruct ps; [|discriminate]. inv_f2.
+    - destruct ps; [|discriminate]. inv_f2. cbn [orb] in Hdl.
       match goal with H : lexvar (Elem _ [] []) _ |- _ => apply flag_inv in H; destruct H as (a1 & k1 & ->) end.
-      reflexivity.
-    - now rewrite (fold_cprops _ _ nm false [] false [] Hf1). }
+      cbn [fold_res comp_kid]. change (local_is (cn "allprop") "allprop") with true. cbv iota.
+      unfold flag_at. rewrite chk_lt by lia. reflexivity.
+    - destruct ps as [|p0 ps]; [cbn [map] in Hf1; inv_f2; reflexivity |].
+      now rewrite (fold_cprops d _ ltac:(lia) _ nm false [] false [] Hf1). }
   rewrite H1. cbv beta iota.
   destruct ac.
-  - destruct comps; [|discriminate]. inv_f2.
+  - destruct comps; [|discriminate]. inv_f2. rewrite orb_true_r in Hdl.
     match goal with H : lexvar (Elem _ [] []) _ |- _ => apply flag_inv in H; destruct H as (a1 & k1 & ->) end.
     cbn [fold_res comp_kid].
     change (local_is (cn "allcomp") "allprop") with false.
     change (local_is (cn "allcomp") "prop") with false.
     change (local_is (cn "allcomp") "allcomp") with true. cbv iota.
+    unfold flag_at. rewrite chk_lt by lia.
     eexists. split; [reflexivity |]. cbn [decode_comp].
     destruct ap; [destruct ps; [|discriminate] |]; reflexivity.
-  - destruct (fold_comps _ IH Hcs _ nm ap ps false [] Hf2) as (wcs & -> & Hmc).
+  - destruct (fold_comps d _ IH ltac:(lia) Hcs _ nm ap ps false [] Hf2) as (wcs & -> & Hmc).
     eexists. split; [reflexivity |]. cbn [decode_comp app andb].
     destruct ap; [destruct ps; [|discriminate] |]; cbn [andb negb List.length Nat.eqb]; rewrite Hmc; reflexivity.
 Qed.
@@ -608,23 +636,27 @@ Qed.
 Lemma w_comp_sel_expand c : w_comp_sel (set_expand c None) = w_comp_sel c.
 Proof. now destruct c. Qed.
 
-Lemma wcd_kid_skip w t : is_elem t = false -> wcd_kid w t = Ok w.
+Lemma wcd_kid_skip d w t : is_elem t = false -> wcd_kid d w t = Ok w.
 Proof. destruct t; cbn; [discriminate | reflexivity | reflexivity]. Qed.
 
-Lemma u_caldata_lex c t' :
+Lemma need_comp_expand c : need_comp (set_expand c None) = need_comp c.
+Proof. now destruct c. Qed.
+
+Lemma u_caldata_lex d c t' :
+  (d + 1 + need_comp c < MAXD)%N ->
   valid_cr c = true -> lexvar (w_caldata c) t' ->
-  exists d, u_cal_data_req zero_wcd t' = Ok d /\ decode_calendar_data_req d = Ok c.
+  exists cd, u_cal_data_req d zero_wcd t' = Ok cd /\ decode_calendar_data_req cd = Ok c.
 Proof.
-  intros Hv Hl. apply lexvar_elem_inv in Hl. destruct Hl as (a' & k' & -> & Ha & Hk).
+  intros Hdl Hv Hl. apply lexvar_elem_inv in Hl. destruct Hl as (a' & k' & -> & Ha & Hk).
   change (negb (pcdata (cn "calendar-data"))) with true in Hk.
-  unfold u_cal_data_req. rewrite name_eqb_refl. cbn [negb].
+  unfold u_cal_data_req. rewrite chk_lt by lia. rewrite name_eqb_refl. cbn [negb].
   rewrite fold_res_elems by apply wcd_kid_skip.
   unfold valid_cr in Hv. apply andb_true_iff in Hv. destruct Hv as [Hc Hex].
   assert (Hk0 : forallb is_elem (w_comp_sel c :: opt_list w_expand_el (cr_expand c)) = true).
   { cbn. rewrite w_comp_sel_is_elem. now destruct (cr_expand c). }
   destruct (kids_var_econtent _ _ Hk Hk0) as [_ Hf]. inversion Hf as [|x y l l' Hx Hl]; subst. clear Hf.
   rewrite <- w_comp_sel_expand in Hx.
-  pose proof Hx as Hx'. apply (u_comp_lex _ Hc) in Hx. destruct Hx as (wc & Hu & Hd).
+  pose proof Hx as Hx'. apply (u_comp_lex (set_expand c None) (d + 1)%N ltac:(rewrite need_comp_expand; lia) Hc) in Hx. destruct Hx as (wc & Hu & Hd).
   rewrite w_comp_sel_expand in Hx'. destruct c as [nm ap ps ac cs ex].
   cbn [w_comp_sel] in Hx'. apply lexvar_elem_inv in Hx'. destruct Hx' as (a1 & k1 & -> & _).
   cbn [fold_res wcd_kid]. change (local_is (cn "comp") "comp") with true. cbv iota.
@@ -632,7 +664,7 @@ Proof.
   cbn [cr_expand] in *. destruct ex as [[s e]|]; cbn [opt_list] in Hl; inv_f2.
   - apply andb_true_iff in Hex. destruct Hex as [Hs He].
     match goal with H : lexvar (w_expand_el _) _ |- _ =>
-      pose proof H as Hl; apply (u_expand_lex _ _ _ Hs He) in H; rename H into Hue;
+      pose proof H as Hl; apply (u_expand_lex (d + 1) _ _ _ ltac:(lia) Hs He) in H; rename H into Hue;
       apply lexvar_elem_inv in Hl; destruct Hl as (a2 & k2 & -> & _) end.
     cbn [fold_res wcd_kid].
     change (local_is (cn "expand") "comp") with false.
@@ -661,48 +693,52 @@ Proof.
   destruct (cr_expand c) as [[s e]|]; reflexivity.
 Qed.
 
-Lemma dprop_kid_skip w t : is_elem t = false -> dprop_kid w t = Ok w.
+Lemma dprop_kid_skip d w t : is_elem t = false -> dprop_kid d w t = Ok w.
 Proof. destruct t; cbn; [discriminate | reflexivity | reflexivity]. Qed.
 
-Lemma u_dprop_lex c t' :
+Lemma u_dprop_lex d c t' :
+  (d + 2 < MAXD)%N -> (1 + need_comp c < MAXD)%N ->
   valid_cr c = true -> lexvar (w_dprop c) t' ->
-  exists raws, u_dprop [] t' = Ok raws /\ decode_prop_caldata (Some raws) = Ok c.
+  exists raws, u_dprop d [] t' = Ok raws /\ decode_prop_caldata (Some raws) = Ok c.
 Proof.
-  intros Hv Hl. apply lexvar_elem_inv in Hl. destruct Hl as (a' & k' & -> & Ha & Hk).
+  intros Hdl Hnc Hv Hl. apply lexvar_elem_inv in Hl. destruct Hl as (a' & k' & -> & Ha & Hk).
   change (negb (pcdata (dn "prop"))) with true in Hk.
-  unfold u_dprop. rewrite name_eqb_refl. cbn [negb].
+  unfold u_dprop. rewrite chk_lt by lia. rewrite name_eqb_refl. cbn [negb].
   rewrite fold_res_elems by apply dprop_kid_skip.
   destruct (kids_var_econtent _ _ Hk eq_refl) as [_ Hf]. inv_f2.
   match goal with H : lexvar (Elem (dn "getetag") _ _) _ |- _ =>
     apply lexvar_elem_inv in H; destruct H as (a1 & k1 & -> & _) end.
   match goal with H : lexvar (w_caldata c) _ |- _ =>
     pose proof H as Hl; apply lexvar_strip in H; [|apply plain_caldata];
-    apply (u_caldata_lex _ _ Hv) in H; destruct H as (d & Hu & Hd);
+    apply (u_caldata_lex 0 c _ ltac:(lia) Hv) in H; destruct H as (cd & Hu & Hd);
     apply lexvar_elem_inv in Hl; destruct Hl as (a2 & k2 & -> & _) end.
-  cbn [fold_res dprop_kid app]. eexists. split; [reflexivity |].
+  cbn [fold_res dprop_kid app]. rewrite !chk_lt by lia. cbv beta iota. eexists. split; [reflexivity |].
   unfold decode_prop_caldata.
   change (strip_decls (strip_foreign (Elem (cn "calendar-data") a2 k2))) with (strip (Elem (cn "calendar-data") a2 k2)).
   cbn [find strip_foreign strip_decls is_caldata].
   change (name_eqb (dn "getetag") (cn "calendar-data")) with false. cbv iota.
   unfold strip in Hu |- *. cbn [strip_foreign strip_decls] in Hu |- *.
-  unfold is_caldata at 1. rewrite name_eqb_refl. cbv iota. rewrite Hu. exact Hd.
+  cbn [app find is_caldata].
+  change (name_eqb (dn "getetag") (cn "calendar-data")) with false. rewrite name_eqb_refl. cbv iota.
+  rewrite Hu. exact Hd.
 Qed.
 
-Lemma filter_kid_skip w t : is_elem t = false -> filter_kid w t = Ok w.
+Lemma filter_kid_skip d w t : is_elem t = false -> filter_kid d w t = Ok w.
 Proof. destruct t; cbn; [discriminate | reflexivity | reflexivity]. Qed.
 
-Lemma u_filter_lex f t' :
+Lemma u_filter_lex d f t' :
+  (d + 1 + need_cf f < MAXD)%N ->
   valid_cf f = true -> lexvar (Elem (cn "filter") [] [w_cf f]) t' ->
-  exists w, u_filter zero_wcf t' = Ok w /\ decode_comp_filter w = Ok f.
+  exists w, u_filter d zero_wcf t' = Ok w /\ decode_comp_filter w = Ok f.
 Proof.
-  intros Hv Hl. apply lexvar_elem_inv in Hl. destruct Hl as (a' & k' & -> & Ha & Hk).
+  intros Hdl Hv Hl. apply lexvar_elem_inv in Hl. destruct Hl as (a' & k' & -> & Ha & Hk).
   change (negb (pcdata (cn "filter"))) with true in Hk.
-  unfold u_filter. rewrite name_eqb_refl. cbn [negb].
+  unfold u_filter. rewrite chk_lt by lia. rewrite name_eqb_refl. cbn [negb].
   rewrite fold_res_elems by apply filter_kid_skip.
   assert (Hk0 : forallb is_elem [w_cf f] = true) by (cbn; now rewrite w_cf_is_elem).
   destruct (kids_var_econtent _ _ Hk Hk0) as [_ Hf]. inv_f2.
   match goal with H : lexvar (w_cf f) _ |- _ =>
-    pose proof H as Hl; apply (u_cf_lex _ Hv) in H; destruct H as (w & Hu & Hd);
+    pose proof H as Hl; apply (u_cf_lex f (d + 1)%N ltac:(lia) Hv) in H; destruct H as (w & Hu & Hd);
     destruct f; apply lexvar_elem_inv in Hl; destruct Hl as (a1 & k1 & -> & _) end.
   cbn [fold_res filter_kid]. change (local_is (cn "comp-filter") "comp-filter") with true. cbv iota.
   rewrite Hu. eauto.
@@ -713,60 +749,68 @@ Section Top.
 Variable href_fmt : string -> string.
 Variable href_parse : string -> option string.
 
-Lemma wq_kid_skip w t : is_elem t = false -> wq_kid w t = Ok w.
+Lemma wq_kid_skip d w t : is_elem t = false -> wq_kid d w t = Ok w.
 Proof. destruct t; cbn; [discriminate | reflexivity | reflexivity]. Qed.
-Lemma wm_kid_skip w t : is_elem t = false -> wm_kid href_parse w t = Ok w.
+Lemma wm_kid_skip d w t : is_elem t = false -> wm_kid href_parse d w t = Ok w.
 Proof. destruct t; cbn; [discriminate | reflexivity | reflexivity]. Qed.
 
-Lemma u_href_lex p t' :
-  valid_path href_fmt href_parse p = true -> lexvar (w_href href_fmt p) t' -> u_href href_parse t' = Ok p.
+Lemma u_href_lex d p t' :
+  (d < MAXD)%N ->
+  valid_path href_fmt href_parse p = true -> lexvar (w_href href_fmt p) t' -> u_href href_parse d t' = Ok p.
 Proof.
-  intros Hv Hl. apply lexvar_elem_inv in Hl. destruct Hl as (a' & k' & -> & Ha & Hk).
+  intros Hdl Hv Hl. apply lexvar_elem_inv in Hl. destruct Hl as (a' & k' & -> & Ha & Hk).
   change (negb (pcdata (dn "href"))) with false in Hk.
-  unfold u_href. rewrite (kids_var_text _ _ _ Hk eq_refl), text_of_text_kids.
+  unfold u_href. rewrite (chk_lt _ _ Hdl). rewrite (kids_var_text _ _ _ Hk eq_refl), text_of_text_kids.
   unfold valid_path in Hv. destruct (href_parse (href_fmt p)); [|discriminate].
   apply String.eqb_eq in Hv. now subst.
 Qed.
 
-Lemma fold_hrefs ps :
+Lemma fold_hrefs d ps :
+  (d + 2 < MAXD)%N ->
   forallb (valid_path href_fmt href_parse) ps = true ->
   forall rest' w, Forall2 lexvar (map (w_href href_fmt) ps) rest' ->
-  fold_res (wm_kid href_parse) rest' w =
+  fold_res (wm_kid href_parse d) rest' w =
   Ok {| wm_prop := wm_prop w; wm_allprop := wm_allprop w; wm_propname := wm_propname w;
         wm_hrefs := wm_hrefs w ++ ps |}.
 Proof.
-  induction ps as [|p ps IH]; intros Hv rest' w Hf; cbn [map] in Hf; inv_f2.
+  intros Hdl. induction ps as [|p ps IH]; intros Hv rest' w Hf; cbn [map] in Hf; inv_f2.
   - rewrite app_nil_r. now destruct w.
   - cbn [forallb] in Hv. apply andb_true_iff in Hv. destruct Hv as [Hp Hps].
     match goal with H : lexvar (w_href _ p) _ |- _ =>
-      pose proof H as Hl; apply (u_href_lex _ _ Hp) in H; rename H into Hu;
+      pose proof H as Hl; apply (u_href_lex (d + 2) _ _ Hdl Hp) in H; rename H into Hu;
       apply lexvar_elem_inv in Hl; destruct Hl as (a1 & k1 & -> & _) end.
     cbn [fold_res wm_kid].
     change (name_eqb (dn "href") (dn "prop")) with false.
     change (name_eqb (dn "href") (dn "allprop")) with false.
     change (name_eqb (dn "href") (dn "propname")) with false.
-    change (name_eqb (dn "href") (dn "href")) with true. cbv iota. rewrite Hu.
+    change (name_eqb (dn "href") (dn "href")) with true. cbv iota. rewrite chk_lt by lia. rewrite Hu.
     match goal with HF : Forall2 lexvar (map _ ps) _ |- _ => rewrite (IH Hps _ _ HF) end.
     cbn [wm_prop wm_allprop wm_propname wm_hrefs]. now rewrite <- app_assoc.
 Qed.
 
+Lemma MAXD_big : (16 < MAXD)%N.
+Proof. reflexivity. Qed.
+
 Theorem server_denotes path r doc :
-  valid href_fmt href_parse r = true ->
+  valid href_fmt href_parse r = true -> fits_request r = true ->
   lexvar (rfc_write href_fmt r) doc ->
   handle_report href_parse path doc = Ok (backend_call_of path r).
 Proof.
-  intros Hv Hl. destruct r as [q|m]; cbn [rfc_write valid backend_call_of] in *.
+  pose proof MAXD_big as HM.
+  intros Hv Hfit Hl. destruct r as [q|m]; cbn [rfc_write valid backend_call_of fits_request] in *.
   - unfold rfc_write_query in Hl. apply andb_true_iff in Hv. destruct Hv as [Hcr Hcf].
+    apply andb_true_iff in Hfit. destruct Hfit as [Hf1 Hf2]. apply N.ltb_lt in Hf1, Hf2.
     apply lexvar_elem_inv in Hl. destruct Hl as (a' & k' & -> & Ha & Hk).
     change (negb (pcdata (cn "calendar-query"))) with true in Hk.
-    unfold handle_report. rewrite name_eqb_refl. unfold u_calendar_query. rewrite name_eqb_refl. cbn [negb].
+    unfold handle_report. rewrite name_eqb_refl. unfold u_calendar_query. rewrite chk_lt by lia.
+    rewrite name_eqb_refl. cbn [negb].
     rewrite fold_res_elems by apply wq_kid_skip.
     destruct (kids_var_econtent _ _ Hk eq_refl) as [_ Hf]. inv_f2.
     match goal with H : lexvar (w_dprop _) _ |- _ =>
-      pose proof H as Hl; apply (u_dprop_lex _ _ Hcr) in H; destruct H as (raws & Hu & Hd);
+      pose proof H as Hl; apply (u_dprop_lex (0 + 1) (q_cr q) _ ltac:(lia) Hf1 Hcr) in H; destruct H as (raws & Hu & Hd);
       apply lexvar_elem_inv in Hl; destruct Hl as (a1 & k1 & -> & _) end.
     match goal with H : lexvar (Elem (cn "filter") _ _) _ |- _ =>
-      pose proof H as Hl; apply (u_filter_lex _ _ Hcf) in H; destruct H as (wf & Huf & Hdf);
+      pose proof H as Hl; apply (u_filter_lex (0 + 1) (q_cf q) _ ltac:(lia) Hcf) in H; destruct H as (wf & Huf & Hdf);
       apply lexvar_elem_inv in Hl; destruct Hl as (a2 & k2 & -> & _) end.
     cbn [fold_res wq_kid]. rewrite name_eqb_refl. cbn [wq_prop zero_wq opt_default]. rewrite Hu.
     change (name_eqb (cn "filter") (dn "prop")) with false.
@@ -777,19 +821,20 @@ Proof.
     unfold handle_query. cbn [wq_prop wq_filter]. rewrite Hd, Hdf. now destruct q.
   - unfold rfc_write_multiget in Hl.
     apply andb_true_iff in Hv. destruct Hv as [Hv Hps]. apply andb_true_iff in Hv. destruct Hv as [Hcr Hne].
+    apply N.ltb_lt in Hfit.
     apply lexvar_elem_inv in Hl. destruct Hl as (a' & k' & -> & Ha & Hk).
     change (negb (pcdata (cn "calendar-multiget"))) with true in Hk.
     unfold handle_report.
     change (name_eqb (cn "calendar-multiget") (cn "calendar-query")) with false.
-    rewrite name_eqb_refl. unfold u_multiget. rewrite name_eqb_refl. cbn [negb].
+    rewrite name_eqb_refl. unfold u_multiget. rewrite chk_lt by lia. rewrite name_eqb_refl. cbn [negb].
     rewrite fold_res_elems by apply wm_kid_skip.
     assert (Hk0 : forallb is_elem (w_dprop (mg_cr m) :: map (w_href href_fmt) (mg_paths m)) = true).
     { cbn. now apply forallb_map_elem. }
     destruct (kids_var_econtent _ _ Hk Hk0) as [_ Hf]. inversion Hf as [|x y l l' Hx Hl]; subst. clear Hf.
-    pose proof Hx as Hx'. apply (u_dprop_lex _ _ Hcr) in Hx. destruct Hx as (raws & Hu & Hd).
+    pose proof Hx as Hx'. apply (u_dprop_lex (0 + 1) (mg_cr m) _ ltac:(lia) Hfit Hcr) in Hx. destruct Hx as (raws & Hu & Hd).
     apply lexvar_elem_inv in Hx'. destruct Hx' as (a1 & k1 & -> & _).
     cbn [fold_res wm_kid]. rewrite name_eqb_refl. cbn [wm_prop zero_wm opt_default]. rewrite Hu.
-    rewrite (fold_hrefs _ Hps _ _ Hl). cbn [wm_prop wm_hrefs zero_wm app].
+    rewrite (fold_hrefs 0 _ ltac:(lia) Hps _ _ Hl). cbn [wm_prop wm_hrefs zero_wm app].
     unfold handle_multiget. cbn [wm_prop wm_hrefs]. rewrite Hd. reflexivity.
 Qed.
 
